@@ -280,3 +280,37 @@ Definition int_preserving (fd : fdesc) : Prop :=
   | FConv _ ker => Forall q_int ker
   | _ => False
   end.
+
+(* ---- what the model transcribes from the source (tie T: compared with Gen/C03Src.v, which
+   harness/props/c03.py translate() re-reads from the source on every run) ------------------- *)
+Record apply_src := ASrc {
+  as_enum : bool;        (* dik = list(enumerate(vdims)) *)
+  as_reverse : bool;     (* for di, dk in dik[::-1]:   -- impl_vals folds from the last axis *)
+  as_named_test : bool;  (* if dk in dimfuncs:          -- step looks the dimension NAME up *)
+  as_reducer : bool;     (* newvals = getattr(newvals, dfunc)(axis=di, keepdims=True) *)
+  as_callable : bool;    (* opts = dict(axis=di, arr=newvals); ...; newvals = np.apply_along_axis( **opts ) *)
+  as_dtype : bool;       (* newvaro = outf.copyVariable(varo, key=vark, dtype=newvals.dtype, withdata=False) *)
+  as_assign : bool;      (* newvaro[...] = newvals *)
+  as_len_named : bool;   (* newdl = getattr(dvar[...], df)(keepdims=True).size *)
+  as_len_call : bool;    (* newdl = df(dvar[:]).size ; dict form: dfopts.pop('func1d')(dvar[:], ...).size *)
+  as_coord : bool;       (* dvar = self.variables[dk] if it is 1-D else np.arange(len(dv)) *)
+  as_dims : bool;        (* for dk, dv in self.dimensions.items(): outf.copyDimension(dv, key=dk, dimlen=dimlens[dk]) *)
+  as_ioapi : bool;       (* ioapi wrapper: core call, then VGLVLS = append(nlayb[:, 0], nlayb[-1, 1]) of layf.applyAlongDimensions(lay=kwds['LAY']) *)
+  as_reduce_dim : bool;  (* reduce_dim: axis = list(var.dimensions).index(dimkey); _getfunc(vreshape, func)(axis=axis, keepdims=True) *)
+  as_convolve_dim : bool (* convolve_dim: np.apply_along_axis(lambda x_: np.convolve(weights, x_, mode=mode), axis=axisi, arr=var[:]) *)
+}.
+Definition model_apply : apply_src := ASrc true true true true true true true true true true true true true true.
+
+(* the variable loop as a function of what the source says (axis order) *)
+Definition generic_vals (s : apply_src) (dfs : dimfuncs) (v : var) : farr cell :=
+  if as_reverse s then fold_right (step dfs) (vdat v) (enumerate (vdims v))
+  else fold_left (fun a kd => step dfs kd a) (enumerate (vdims v)) (vdat v).
+
+(* a named function is usable on dimension d of length n: its length probe succeeds and every lane
+   of length n gets the probed output length (true of every named reducer; true of a
+   length-uniform callable when the 1-D coordinate variable, if any, has the dimension's length) *)
+Definition lane_ok (f : file) (d n : nat) (fd : fdesc) : Prop :=
+  match newlen fd (coord_lane f d n) with
+  | Ok m => forall l, length l = n -> length (run fd l) = m
+  | Err _ => False
+  end.
